@@ -71,6 +71,24 @@ def children (n : Node) : List Node :=
   (n.kids.flatMap (fun s => s.2.2)).filter (fun c => !c.isAtomNode)
 end Node
 
+/-- `n` with every position removed (what a check's *decision* may depend on) -/
+def Node.erase : Node → Node
+  | .mk k _ a ks => .mk k none a (eraseSlots ks)
+where
+  eraseSlots : List (Str × Bool × List Node) → List (Str × Bool × List Node)
+    | [] => []
+    | (f, l, ns) :: rest => (f, l, eraseList ns) :: eraseSlots rest
+  eraseList : List Node → List Node
+    | [] => []
+    | n :: ns => Node.erase n :: eraseList ns
+
+@[simp] theorem Node.erase_kind (n : Node) : n.erase.kind = n.kind := by
+  cases n; rfl
+@[simp] theorem Node.erase_attrs (n : Node) : n.erase.attrs = n.attrs := by
+  cases n; rfl
+@[simp] theorem Node.erase_isKind (n : Node) (k : String) : n.erase.isKind k = n.isKind k := by
+  simp [Node.isKind]
+
 /-- One step of bandit's traversal: a node together with its ancestor chain (nearest first)
 and its `_bandit_sibling`. -/
 structure Visit where
@@ -80,6 +98,7 @@ structure Visit where
 deriving Inhabited
 
 namespace Visit
+def erase (v : Visit) : Visit := ⟨v.anc.map Node.erase, v.node.erase, v.sib.map Node.erase⟩
 def parent? (v : Visit) : Option Node := v.anc.head?
 def grandparent? (v : Visit) : Option Node := v.anc[1]?
 end Visit
